@@ -398,11 +398,17 @@ func (s *Service) transactionalImport(ctx context.Context, desired config.Pipeli
 	}
 	defer txn.Discard()
 
-	if err := s.importPipeline(importCtx, desired, pipeline.ProvisionTypeConfig); err != nil {
+	executed, err := s.importPipelineActions(importCtx, desired, pipeline.ProvisionTypeConfig)
+	if err != nil {
 		return err
 	}
 
 	if err := txn.Commit(); err != nil {
+		// Nothing reached the store, but the actions have already changed the
+		// in-memory entities: undo them, otherwise the server keeps showing
+		// (and exporting, planning against) a configuration that was never
+		// stored.
+		s.undoImport(importCtx, executed)
 		return cerrors.Errorf("could not commit db transaction: %w", err)
 	}
 	return nil
